@@ -4,7 +4,7 @@
 cd "$(dirname "$0")/.."
 J=${1:-4}; PAT=${2:-C}
 out=/tmp/seedregress; rm -rf $out; mkdir -p $out
-ls -d seeded/${PAT}* | grep -E "seeded/C[0-9]{2}[a-z]?$" | xargs -P $J -I{} bash -c '
+ls -d seeded/${PAT}* | grep -E "seeded/C[0-9]{2}[a-z]?(-[a-z0-9]+)?$" | xargs -P $J -I{} bash -c '
   d={}; n=$(basename $d); id=${n:0:3}
   r=$(ISO=/tmp/iso.sr.$n tools/seediso.sh $d $id 2>&1 | grep -E "^(VIOLATION|OK)|patch does not apply" | head -1 | cut -c1-160)
   echo "$n $r" >> /tmp/seedregress/summary.txt'
